@@ -807,6 +807,18 @@ func ruleBytewise(c *Ctx, r *RuleResult, pkgRel string) {
 						bad++
 						r.find(c.short(fn)+":rune conversion", c.instrPos(in), "%s converts between a string and runes in a package whose words are byte strings", c.short(fn))
 					}
+					// string(b) for any other integer type (a byte above all) is the same code-point
+					// conversion: a byte >= 0x80 becomes two bytes. Judged only where the bytes of the
+					// result are read back (a string that is only compared or used as a key is injective
+					// in the byte and stays unreported).
+					if ib, ok := from.(*types.Basic); ok && ib.Info()&types.IsInteger != 0 && !isRune(from) && isStr(to) {
+						if sink := stringBytesReadBack(x); sink != nil {
+							bad++
+							r.find(c.short(fn)+":code-point conversion of a byte", c.instrPos(in), "%s builds a string with string(x) from an integer (a label byte), which encodes x as a code point - a byte >= 0x80 becomes two bytes - and reads the bytes of the result back at %s: words over a non-ASCII alphabet come back with different labels", c.short(fn), c.instrPos(sink))
+						} else {
+							r.note("%s: string(x) of an integer at %s is only compared or used as a key (injective in x): not reported", c.short(fn), c.instrPos(in))
+						}
+					}
 				}
 			}
 		}
@@ -816,6 +828,61 @@ func ruleBytewise(c *Ctx, r *RuleResult, pkgRel string) {
 	if n == 0 {
 		r.undecided("no functions found in package %s", pkgRel)
 	}
+}
+
+// stringBytesReadBack: does the string v, or a string built from it by concatenation, a phi or a
+// round trip through a local variable, reach an instruction that reads its bytes (conversion to
+// []byte, indexing, slicing, range, append(bytes, s...))? Returns that instruction.
+func stringBytesReadBack(v ssa.Value) ssa.Instruction {
+	seen := map[ssa.Value]bool{}
+	work := []ssa.Value{v}
+	for len(work) > 0 {
+		x := work[len(work)-1]
+		work = work[:len(work)-1]
+		if seen[x] || x.Referrers() == nil {
+			continue
+		}
+		seen[x] = true
+		for _, ref := range *x.Referrers() {
+			switch u := ref.(type) {
+			case *ssa.Convert:
+				if sl, ok := u.Type().Underlying().(*types.Slice); ok {
+					if b, ok := sl.Elem().Underlying().(*types.Basic); ok && (b.Kind() == types.Uint8 || b.Kind() == types.Int32) {
+						return u
+					}
+				}
+			case *ssa.Lookup:
+				if u.X == x {
+					return u
+				}
+			case *ssa.Slice:
+				if u.X == x {
+					return u
+				}
+			case *ssa.Range:
+				return u
+			case *ssa.BinOp:
+				if u.Op == token.ADD {
+					work = append(work, u)
+				}
+			case *ssa.Phi:
+				work = append(work, u)
+			case *ssa.Call:
+				if b, ok := u.Call.Value.(*ssa.Builtin); ok && (b.Name() == "append" || b.Name() == "copy") {
+					return u
+				}
+			case *ssa.Store:
+				if al, ok := u.Addr.(*ssa.Alloc); ok && u.Val == x && al.Referrers() != nil {
+					for _, r2 := range *al.Referrers() {
+						if ld, ok := r2.(*ssa.UnOp); ok && ld.Op == token.MUL {
+							work = append(work, ld)
+						}
+					}
+				}
+			}
+		}
+	}
+	return nil
 }
 
 func init() {
